@@ -44,6 +44,8 @@ def run(ctx, chk, tier="quick"):
     )
     chk.assumptions = ["scipy splrep(s=0) interpolates its data; splev/splint evaluate/integrate that spline",
                        "splint treats the spline as zero outside its data interval (scipy documentation)"]
+    from ..memo import memo_keys
+    memo_keys(ctx, chk, "C14.O1", ("spline", "specific_yield"), "spline")
     mod = ctx.repo.module("spline")
     tck_attr = "_tck"
     # ---------------- O1
@@ -168,9 +170,58 @@ def run(ctx, chk, tier="quick"):
                    "the first knot self.%s[0][0] and the last knot self.%s[0][-1]" % (tck_attr, tck_attr),
                    key="Spline.__call__|clamp|bounds", why="clamping against an interior knot or a coefficient makes the function constant inside the knot range")
             cells = []
+        # an argument clamped in place (a copy of x changed by masked stores) is evaluated by running the statements before the call
+        in_place = any(isinstance(n, ast.Name) and n.id != xparam and n.id not in dom_names and sym_of(n) is None for n in ast.walk(arg)) \
+            and isinstance(ev0.args[0], ast.Name)
+
+        def eval_arg(cell):
+            if not in_place:
+                return CellEval(cell, sym_of).eval(arg)
+            from ..ordercell import CellExec
+
+            def apply(c_, args_, evl):
+                nm = CellEval._call_name(c_)
+                if nm in ("array", "asarray", "copy", "float64", "atleast_1d", "asfarray") and args_ and args_[0] is not None:
+                    return args_[0]          # a copy / conversion of x: the same element
+                if nm == "copy" and isinstance(c_.func, ast.Attribute) and not c_.args:
+                    return evl.eval(c_.func.value)
+                return None
+            evl = CellEval(cell, sym_of, apply=apply)
+
+            def on_assign_call(st_, e_):
+                v_ = st_.value
+                if isinstance(v_, ast.Call) and dotted_name(v_.func) == "self.domain":
+                    return [Poly.atom("xmin"), Poly.atom("xmax")]
+                return None
+            ex_ = CellExec(evl, on_assign_call)
+            body_ = []
+            for st_ in call.node.body:
+                if any(n is ev0 for n in ast.walk(st_)):
+                    break
+                body_.append(st_)
+            ex_.run(body_)
+            return evl.eval(ev0.args[0])
+
+        # ... and such a copy must be a floating-point array: np.array(x) of integer levels keeps the integer dtype and the
+        # stored knot is truncated towards zero
+        if in_place:
+            nm_ = ev0.args[0].id
+            d_ = None
+            for st_ in call.node.body:
+                if isinstance(st_, ast.Assign) and len(st_.targets) == 1 and isinstance(st_.targets[0], ast.Name) and st_.targets[0].id == nm_:
+                    d_ = st_
+            stores_ = [st_ for st_ in ast.walk(call.node) if isinstance(st_, ast.Assign) and isinstance(st_.targets[0], ast.Subscript)
+                       and isinstance(st_.targets[0].value, ast.Name) and st_.targets[0].value.id == nm_]
+            if d_ is not None and stores_ and isinstance(d_.value, ast.Call):
+                fn_ = (full_call_name(mod, d_.value) or dotted_name(d_.value.func) or "").split(".")[-1]
+                has_float = any(k.arg == "dtype" and "float" in ast.unparse(k.value) for k in d_.value.keywords) or fn_ in ("asfarray", "float64")
+                if fn_ in ("array", "asarray", "copy", "atleast_1d", "array_like", "empty_like", "zeros_like") and not has_float:
+                    chk.ob("C14.O2", False, where_of(call, d_), "%s = %s keeps the caller's dtype, and the knot range ends are then stored into it" % (nm_, ast.unparse(d_.value)[:50]),
+                           "the clamped copy is a floating-point array (dtype=float)", key="Spline.__call__|clamp|dtype",
+                           why="for integer levels (a Python int, an integer array) the stored end knot -291.7 becomes -291: the function is no longer constant outside the knot range")
         for label, cell, want in cells:
             try:
-                got = CellEval(cell, sym_of).eval(arg)
+                got = eval_arg(cell)
                 ok = CellEval(cell, sym_of).compare("==", got, Poly.atom(want))
                 chk.ob("C14.O2", ok, where_of(call, ev0), "%s: spline evaluated at %s" % (label, got.key()),
                        "evaluated at %s" % want, key="Spline.__call__|clamp|%s" % label,
